@@ -30,6 +30,54 @@ import (
 //     goroutine can ever make progress (the workloads have no timers, network or signals that could wake one): deadlock.
 //     Anything else is inconclusive.
 
+// Livelock verdicts. A monitored call that spins instead of blocking is never idle, so the watcher above does not see it.
+// The shard process watches itself: a goroutine notes the process's CPU time (getrusage: user + system, all threads)
+// whenever a new case starts; if ONE case has consumed more than livelockBudget of CPU time without ending, the call is
+// reported as a violation with the case as the witness. CPU time measures work done by this process, not elapsed time: a
+// loaded machine does not inflate it. The budget is 5 minutes of CPU time in the quick tier and 20 in the thorough tier;
+// the most expensive legitimate cases are the soaks (2^18 resp. 2^20 map evaluations: about 10 s resp. 40 s, a few times
+// that in the 32-bit re-run).
+func livelockBudget(tier string) time.Duration {
+	if tier == "thorough" {
+		return 20 * time.Minute
+	}
+
+	return 5 * time.Minute
+}
+
+func processCPU() time.Duration {
+	var ru syscall.Rusage
+	if err := syscall.Getrusage(syscall.RUSAGE_SELF, &ru); err != nil {
+		return 0
+	}
+
+	return time.Duration(ru.Utime.Nano() + ru.Stime.Nano())
+}
+
+// livelockWatch runs in the shard child for its whole life (its goroutine is recognised by name in AnalyzeGoroutineDump).
+func livelockWatch(c *Ctx, out string) {
+	last, cpu0 := int64(-1), processCPU()
+
+	for {
+		time.Sleep(2 * time.Second)
+
+		seq, cpu := c.caseSeq.Load(), processCPU()
+		if seq != last {
+			last, cpu0 = seq, cpu
+			continue
+		}
+
+		if cpu-cpu0 > livelockBudget(c.Tier) {
+			c.Res.ViolationCount++
+			c.Res.Violations = append(c.Res.Violations, Violation{Property: c.Prop.ID, Key: "livelock", Case: c.cur,
+				What: fmt.Sprintf("a monitored call never returns: the case below has been running for %s of CPU time without ending (busy, not blocked)", (cpu - cpu0).Round(time.Second))})
+			_ = c.WriteShard(out)
+
+			os.Exit(0)
+		}
+	}
+}
+
 // Stall is what the watcher found.
 type Stall struct {
 	// Stalled: the child was idle for idleFor and was sent SIGQUIT (or hit the hard limit).
@@ -50,8 +98,15 @@ const ModulePath = "github.com/bytemare/secp256k1"
 // AnalyzeGoroutineDump decides whether a SIGQUIT goroutine dump shows a deadlock involving the module under test.
 func AnalyzeGoroutineDump(dump string) string {
 	states := map[string]int{}
-	for _, m := range goroutineHeader.FindAllStringSubmatch(dump, -1) {
-		states[m[1]]++
+
+	for _, blk := range strings.Split(dump, "\n\n") {
+		if strings.Contains(blk, "mon.livelockWatch") {
+			continue // the shard's own CPU-time watch (asleep between two looks)
+		}
+
+		if m := goroutineHeader.FindStringSubmatch(blk); m != nil {
+			states[m[1]]++
+		}
 	}
 
 	blocked, live := 0, 0
